@@ -70,7 +70,7 @@ CLAIMED['C09'] = dict(
          'edges, dst row aliasing), is_reachable reads R; all int/size_t arithmetic in range and every operator[] in bounds. '
          'The closure statement (R = reflexive-transitive closure of the inserted edges) follows by the Lean lemma lean/Closure.lean. Second theory: the typegraph.cc glue -- CFGNode::ConnectTo (after a.ConnectTo(b) the backward relation is the old one plus everything that follows from the pair (b, a), also on the self-edge and duplicate-edge early returns; every recorded forward edge is in the relation) and Program::is_reachable (answers R(dst, src) of the backward relation) -- proved over a heap model lowered from the clang AST, using the view-level clauses of reachable.cc.',
     note='Trusted: engine/ incl. the C++ lowering (cxxfront.py), clang, z3, Lean 4/Mathlib; A-SHIFT, A-STL, A-MEM, LP64. '
-         'typegraph.cc glue (NewCFGNode/ConnectTo/Program::is_reachable argument order) and cfg.cc wrappers: bounded native sweep vs BFS only. Glue theory: unique_ptr::operator-> is the owned object, Program::InvalidateSolver does not touch reachability state; NewCFGNode/ConnectNew (dense ids, constructor) and the cfg.cc wrappers: bounded native sweep only.',
+         'typegraph.cc glue (NewCFGNode/ConnectTo/Program::is_reachable argument order) and cfg.cc wrappers: bounded native sweep vs BFS only; Variable.Bindings(viewpoint) (Variable::Prune, the user of reachability the property names) is compared with a graph oracle in the same sweep (bounded). Glue theory: unique_ptr::operator-> is the owned object, Program::InvalidateSolver does not touch reachability state; NewCFGNode/ConnectNew (dense ids, constructor) and the cfg.cc wrappers: bounded native sweep only.',
     technique='contract-based deductive verification: clang JSON AST -> Python-subset lowering -> VC generator (loop invariants, BV64 + arrays) -> z3; Lean 4 closure lemma',
     design='8.3, 3 C09')
 
